@@ -33,6 +33,7 @@ func init() {
 			"C38.R3 TABLE: resource operators and name prefixes agree between writer and remover",
 			"C38.R5 independence: the remover inspects the last content stream whatever it found in the first",
 			"C38.R6 MPT: the writer leaves each watermarked page with a /Resources entry of its own (the remover requires one)",
+			"C38.R7 TABLE: the end of the watermark's sequence is the first end operator after the marker (Index, not LastIndex)",
 			"C38.R4 siblings: remover and detector inspect the same positions of a /Contents array, the first and the last among them",
 		},
 		Assumptions: []string{"watermark content is produced by wmContent's format constant only"},
@@ -95,6 +96,8 @@ func runC38(c *Ctx) {
 	checkC38BothEnds(c)
 	r.MinInst["C38.R6"] = 1
 	checkC38PageResourcesWritten(c)
+	r.MinInst["C38.R7"] = 1
+	checkC38FirstTerminator(c)
 	const marker = "/Artifact"
 	// ---- the writer's format
 	wfn := p.Func("pkg/pdfcpu.wmContent")
@@ -458,5 +461,42 @@ func checkC38PageResourcesWritten(c *Ctx) {
 	}
 	if n == 0 {
 		r.Bad("C38.R6", fid, "successful returns", p.Pos(fn.Pos()), "UNDECIDED")
+	}
+}
+
+// R7: a marked-content sequence ends at the FIRST end operator after its begin: removeArtifacts looks the terminator up
+// with strings.Index / bytes.Index relative to the marker, never with a LastIndex (which would also delete page content
+// between the watermark and a later EMC — tagged content, or a stamp in the same stream).
+func checkC38FirstTerminator(c *Ctx) {
+	p, r := c.P, c.R
+	const fid = "pkg/pdfcpu.removeArtifacts"
+	fn := p.Func(fid)
+	if fn == nil {
+		r.Bad("C38.R7", fid, "anchor", "", "UNRESOLVED-ANCHOR")
+		return
+	}
+	n := 0
+	eachInstr(fn, func(_ *ssa.BasicBlock, _ int, i ssa.Instruction) {
+		call, ok := i.(*ssa.Call)
+		if !ok || len(call.Call.Args) < 2 {
+			return
+		}
+		_, ref := callRef(call)
+		if !strings.HasPrefix(ref, "strings.") && !strings.HasPrefix(ref, "bytes.") {
+			return
+		}
+		s, ok := constString(call.Call.Args[1])
+		if !ok || strings.HasPrefix(s, "/") || strings.HasPrefix(s, " ") {
+			return
+		}
+		n++
+		if strings.Contains(ref, "LastIndex") {
+			r.Bad("C38.R7", fid, "end of the sequence is the first "+s, p.Pos(call.Pos()), "the end of the watermark's marked-content sequence is searched from the END of the stream: page content between the watermark and a later "+s+" (tagged content, a stamp in the same stream) is deleted together with the watermark")
+		} else {
+			r.OK("C38.R7", fid, "end of the sequence is the first "+s, p.Pos(call.Pos()), ref+" finds the first occurrence after the marker", true)
+		}
+	})
+	if n == 0 {
+		r.Bad("C38.R7", fid, "end of the sequence", p.Pos(fn.Pos()), "UNDECIDED: no search for the end operator")
 	}
 }
